@@ -601,6 +601,38 @@ pub fn main_with(property: &str, build: impl FnOnce(&mut Registry, Tier)) {
                 eprintln!("REPLAY fail subject={subject} clause={} class={} detail={}", f.clause, f.class, truncate(&f.detail, 400));
                 1
             }
+            (Verdict::Fail(_), Verdict::Pass) | (Verdict::Pass, Verdict::Fail(_)) => {
+                // One replay failed, one passed.  Every replay executes the real code against the reference oracle, so a failing
+                // replay is a real failing execution; what differs between the two is a choice the LIBRARY makes from a source
+                // the harness does not own (a randomly keyed std HashMap deciding a tie, for instance).  Replay eight more
+                // times: an intermittent failure that shows up again is reported as a failure (marked intermittent); one that
+                // never returns is reported as not reproducible (machinery), not as a verdict.
+                let mut fails: Vec<Fail> = Vec::new();
+                for v in [&verdict, &verdict2] {
+                    if let Verdict::Fail(f) = v {
+                        fails.push(f.clone());
+                    }
+                }
+                for _ in 0..8 {
+                    if let Verdict::Fail(f) = s.replay(&mut ctx, &witness) {
+                        fails.push(f);
+                    }
+                }
+                if fails.len() >= 2 && fails.iter().all(|f| f.clause == fails[0].clause) {
+                    let f = &fails[0];
+                    eprintln!(
+                        "REPLAY fail (intermittent: {} of 10 replays; the library's behaviour on this case is not a function of the case alone) subject={subject} clause={} class={} detail={}",
+                        fails.len(),
+                        f.clause,
+                        f.class,
+                        truncate(&f.detail, 400)
+                    );
+                    1
+                } else {
+                    eprintln!("REPLAY not reproducible: failed {} of 10 replays", fails.len());
+                    2
+                }
+            }
             (a, b) => {
                 eprintln!("REPLAY not reproducible or not replayable: {:?} / {:?}", a, b);
                 2
